@@ -170,6 +170,65 @@ func suiteStrings(rn *runner, r *rng, tier string) {
 			rn.seen[cls] = true
 		}
 	}
+	// two escapes at every pair of offsets within the first windows of the string kernel (its scan windows are 32 bytes
+	// from the string start; what the first escape left in a register must not leak into the window of the second):
+	// the expected bytes are known by construction, so this family needs no model
+	{
+		type esc struct{ src, dec string }
+		first := []esc{{"\\\"", "\""}, {"\\\\", "\\"}, {"\\u0041", "A"}}
+		second := []esc{{"\\u0041", "A"}, {"\\ud83d\\ude00", "\U0001F600"}, {"\\\"", "\""}, {"\\n", "\n"}}
+		maxOff := 70
+		if thorough {
+			maxOff = 140
+		}
+		bad := 0
+		for a := 0; a < maxOff && bad < 3; a++ {
+			for bgap := 0; bgap < maxOff && bad < 3; bgap++ {
+				for i1, e1 := range first {
+					for i2, e2 := range second {
+						for _, tail := range []int{0, 12, 40} {
+							plainA, plainB, plainC := strings.Repeat("a", a), strings.Repeat("b", bgap), strings.Repeat("c", tail)
+							body := plainA + e1.src + plainB + e2.src + plainC
+							want := plainA + e1.dec + plainB + e2.dec + plainC
+							text := "[\"" + body + "\"]"
+							cp := (a+bgap+i1+i2)%2 == 0
+							pj, err := simdjson.Parse([]byte(text), nil, simdjson.WithCopyStrings(cp))
+							got, ok := "", false
+							if err == nil {
+								func() {
+									defer func() { recover() }()
+									it := pj.Iter()
+									it.AdvanceInto()
+									it.AdvanceInto()
+									if it.AdvanceInto() == simdjson.TagString {
+										if sb, e := it.StringBytes(); e == nil {
+											got, ok = string(sb), true
+										}
+									}
+								}()
+							}
+							rn.rep.Evaluations++
+							if !ok || got != want {
+								bad++
+								cpS := "0"
+								if cp {
+									cpS = "1"
+								}
+								impl := "rejected or unreadable"
+								if ok {
+									impl = hx([]byte(got))
+								}
+								rn.disagree(disagreement{Kind: "spec", Ops: []string{"parse p 0 " + cpS + " " + hx([]byte(text)), "owalk p"}, At: 0, Impl: impl,
+									Other: "the string " + hx([]byte(want)), Note: fmt.Sprintf("strings: escapes at offsets %d and %d of one string", a, a+len(e1.src)+bgap)})
+							}
+						}
+					}
+				}
+			}
+		}
+		rn.rep.Distribution["two-escapes/exhaustive"]++
+		rn.seen["two-escapes/exhaustive"] = true
+	}
 	// boundaries of the UTF-8 length classes and of the surrogate range, both hex cases, in every run
 	for _, cu := range []int{0, 1, 0x1f, 0x20, 0x22, 0x5c, 0x7e, 0x7f, 0x80, 0x81, 0xff, 0x100, 0x7fe, 0x7ff, 0x800, 0x801, 0xfff, 0x1000,
 		0xd7fe, 0xd7ff, 0xe000, 0xe001, 0xfffd, 0xfffe, 0xffff} {
